@@ -10,6 +10,16 @@ CHECKS = {
    text='CBMC decides, for EVERY date in 1970-2200, every month offset landing in 1970-2200, every roll kind/day 1-31 and every modifier, that add_months returns the date given by total-month arithmetic with the roll day capped at the month length; likewise get_imm/get_eom/is_imm/is_eom/is_leap_year/get_roll for every month of the range. The domain is finite and covered completely, so inside the stated range this is a complete decision, not a sample.',
    note='Trusted: Kani/CBMC semantics of MIR, Kani std models, two stubs (PyErr::new -> zeroed token, catch_unwind -> direct call). Adjustment is the identity on the all-business model calendar used (holiday calendars are C04).'),
 }
+CHECKS.update({
+ 'C01': dict(engine='mirsym', technique='symbolic execution of the rustc MIR of every Dual operator impl (symbolic variable names and real values), z3 validity query per path against the calculus rules; counterexamples replayed natively',
+   category='model_checking', design_ref='DESIGN.md §3.1',
+   text='For EVERY operator impl body of Dual that the compiler emitted (all auto_ops owned/borrowed/f64-left/right variants of + - * /, neg, pow with symbolic and concrete exponents, exp, log, norm_cdf, inv_norm_cdf, abs) z3 proves on every feasible path that value = plain formula and that the derivative per variable NAME equals the chain-rule value, for operands with 0..2 (quick) / 0..3 (thorough) variables whose names are symbolic (so every overlap, order, subset and Arc sharing is covered) and whose contents are arbitrary reals in the differentiable domain; plus result well-formedness (vars = union, no duplicates, matching shapes) and no division by zero inside the domain. Arbitrary expression trees follow by structural induction over this one-operator step (paper argument).',
+   note='Decided over the reals: IEEE rounding/NaN/inf are outside the claim. Trusted: mirsym library models (listed in evidence), uninterpreted transcendentals with listed axioms. Bound: <=2/<=3 variables per operand.'),
+ 'C02': dict(engine='mirsym', technique='symbolic execution of the rustc MIR of every Dual2 operator impl, z3 validity query per path against first- and second-order chain rules (half-Hessian storage); native replay',
+   category='model_checking', design_ref='DESIGN.md §3.2',
+   text='Same as C01 for every Dual2 operator impl: value, gradient per name, and Hessian per pair of names equal to the second-order chain rule f_a H_a + f_b H_b + f_aa g_a g_a^T + f_ab(g_a g_b^T + g_b g_a^T) + f_bb g_b g_b^T under the representation invariant (dual2 symmetric = half the Hessian), symmetry of the result, for 0..2 / 0..3 symbolic names per operand.',
+   note='As C01. The Hessian read-back by name (gradient2) and Dual::from(Dual2) are checked under C17/C18.'),
+})
 NA_REASON = 'no registered check in this revision yet (work in progress; planned solver-based check described in DESIGN.md §3) — not claimed'
 
 checks = []
@@ -38,7 +48,7 @@ m = {
            'add_only': True},
  'engines': [
    {'name': 'kani', 'path': '/verif/kani', 'serves_properties': ['C08', 'C11', 'C20', 'C04'], 'kind_free_text': 'Kani 0.68 / CBMC 6.11 proof harnesses over the compiled crate (path dependency on /repo), native replay binary in the same crate'},
-   {'name': 'mirsym', 'path': '/verif/mirsym', 'serves_properties': [], 'kind_free_text': 'symbolic executor for rustc MIR (regenerated from /repo on every run) discharging path obligations with z3'},
+   {'name': 'mirsym', 'path': '/verif/mirsym', 'serves_properties': ['C01','C02'], 'kind_free_text': 'symbolic executor for rustc MIR (regenerated from /repo on every run) discharging path obligations with z3'},
    {'name': 'tables', 'path': '/verif/tables', 'serves_properties': ['C07'], 'kind_free_text': 'SMT encoding of the static holiday tables against the published rules over a symbolic day'},
  ],
  'checks': checks,
